@@ -58,12 +58,20 @@ func ccmSpec(blk string, ns, ts int, general bool) spec {
 	return spec{"ccm", blk, "NewCCM", 12, 16}
 }
 
-// build creates the library AEAD for key.
+// build creates the library AEAD for key over a fresh block.
 func (s spec) build(key []byte) (cipher.AEAD, error) {
 	b, err := sm4.NewCipher(key)
 	if err != nil {
 		return nil, err
 	}
+	return s.buildOn(b)
+}
+
+func newBlock(key []byte) (cipher.Block, error) { return sm4.NewCipher(key) }
+
+// buildOn creates the library AEAD over an existing block of the library (which
+// several AEADs may share).
+func (s spec) buildOn(b cipher.Block) (cipher.AEAD, error) {
 	if s.blk == "opaque" {
 		b = opaque{b}
 	}
@@ -170,17 +178,100 @@ func (a *arena) pick(need int) *bufs {
 	panic("c04: case larger than the biggest arena")
 }
 
-// in places an input. A zero-length input is handed over as nil (lo) or as an
-// empty non-nil slice (hi).
-func in(g *mon.Guard, b []byte, hi bool) []byte {
+// pos says where a buffer is put inside its guard region.
+type pos struct {
+	kind int8 // kLo: starts at the lower guard page; kHi: ends at the upper guard page; kOff / kHiOff: misaligned, see below
+	off  int  // kOff: start off bytes after the lower guard page; kHiOff: end off bytes before the upper guard page
+}
+
+const (
+	kLo int8 = iota
+	kHi
+	kOff
+	kHiOff
+)
+
+var (
+	atLo = pos{kind: kLo}
+	atHi = pos{kind: kHi}
+)
+
+// misOffsets are the start offsets of the misalignment dimension: Hi and Lo hand out
+// 16-byte aligned starts whenever the length is a multiple of 16, which hides an
+// aligned-load/store instruction (MOVOA, VMOVDQA) used on caller memory. 16 and 24 are
+// 16- resp. 8-byte aligned but not 32-byte aligned (YMM accesses).
+var misOffsets = [5]int{1, 8, 16, 24, 31}
+
+// mis returns the j-th misaligned position; odd j measure from the upper guard page.
+func mis(j int) pos {
+	if j < 0 {
+		j = -j
+	}
+	k := kOff
+	if j&1 == 1 {
+		k = kHiOff
+	}
+	return pos{kind: k, off: misOffsets[j%len(misOffsets)]}
+}
+
+// shift gives a misaligned position another offset (so that the buffers of one call
+// differ in alignment); guard-page positions are returned unchanged.
+func (p pos) shift(d int) pos {
+	if p.kind != kOff && p.kind != kHiOff {
+		return p
+	}
+	for i, o := range misOffsets {
+		if o == p.off {
+			return pos{kind: p.kind, off: misOffsets[(i+d)%len(misOffsets)]}
+		}
+	}
+	return p
+}
+
+func (p pos) kindName() string {
+	return [...]string{"start_on_guard_page", "end_on_guard_page", "misaligned_offset_from_start", "misaligned_offset_from_end"}[p.kind]
+}
+
+func (p pos) misaligned() bool { return p.kind == kOff || p.kind == kHiOff }
+
+func (p pos) String() string {
+	switch p.kind {
+	case kLo:
+		return "lo"
+	case kHi:
+		return "hi"
+	case kOff:
+		return fmt.Sprintf("lo+%d", p.off)
+	}
+	return fmt.Sprintf("hi-%d", p.off)
+}
+
+// slice hands out n bytes (len == cap) of g at the position.
+func (p pos) slice(g *mon.Guard, n int) []byte {
+	switch p.kind {
+	case kLo:
+		return g.Lo(n)
+	case kHi:
+		return g.Hi(n)
+	case kOff:
+		return g.Off(n, p.off)
+	}
+	return g.HiOff(n, p.off)
+}
+
+// in places an input. A zero-length input is handed over as nil or as an empty
+// non-nil slice.
+func in(g *mon.Guard, b []byte, p pos) []byte {
 	if len(b) == 0 {
-		g.Side(0, hi)
-		if hi {
+		p.slice(g, 0)
+		if p.kind == kHi || p.kind == kHiOff {
 			return []byte{}
 		}
 		return nil
 	}
-	return g.Put(b, hi)
+	s := p.slice(g, len(b))
+	copy(s, b)
+	return s
 }
 
 // dstMode: how the destination of Seal/Open is supplied.
@@ -217,10 +308,10 @@ const fenceLen = 16
 
 // place prepares dst for a call that appends need bytes. input is the plaintext
 // (Seal) or the ciphertext||tag (Open) - used by the in-place mode, where
-// len(input) may exceed need (Open) or be smaller (Seal). With hi the capacity of
-// dst ends at the guard page (a write beyond it faults); otherwise dst starts at
-// the guard page and is followed by a fence of marker bytes outside its capacity.
-func place(g *mon.Guard, r *mon.Rand, mode dstMode, hi bool, need int, input []byte) placed {
+// len(input) may exceed need (Open) or be smaller (Seal). At kHi the capacity of
+// dst ends at the guard page (a write beyond it faults); at the other positions it
+// is followed by a fence of marker bytes outside its capacity.
+func place(g *mon.Guard, r *mon.Rand, mode dstMode, at pos, need int, input []byte) placed {
 	p := placed{mode: mode, need: need}
 	if mode == dNil {
 		return p
@@ -228,6 +319,11 @@ func place(g *mon.Guard, r *mon.Rand, mode dstMode, hi bool, need int, input []b
 	pl := 0
 	if r.Intn(4) != 0 {
 		pl = r.Range(1, 40)
+	}
+	if at.misaligned() {
+		// the chosen offset is meant for the region the library writes (and, in place, reads):
+		// a prefix of 0 or 32 bytes keeps that region at the alignment of the buffer start
+		pl = 32 * r.Intn(2)
 	}
 	p.prefix = r.Bytes(pl)
 	room := need
@@ -247,10 +343,10 @@ func place(g *mon.Guard, r *mon.Rand, mode dstMode, hi bool, need int, input []b
 	case dInPlace:
 		room += r.Range(1, 48)
 	}
-	if hi {
+	if at.kind == kHi {
 		p.buf = g.Hi(pl + room)
 	} else {
-		whole := g.Lo(pl + room + fenceLen)
+		whole := at.slice(g, pl+room+fenceLen)
 		p.buf, p.fence = whole[:pl+room:pl+room], whole[pl+room:]
 	}
 	for i := range p.buf {
@@ -322,15 +418,15 @@ func unchanged(c *mon.Case, what, name string, now, orig []byte) {
 // sealOpen executes Seal (dst mode ms) and Open (dst mode mo) of a on one input
 // and checks: Seal == want (reference), append-only, inputs untouched, guards;
 // Open(want) == pt with the same obligations.
-func sealOpen(c *mon.Case, ar *arena, s spec, a cipher.AEAD, nonce, pt, aad, want []byte, ms, mo dstMode, hiIn, hiOut bool) {
+func sealOpen(c *mon.Case, ar *arena, s spec, a cipher.AEAD, nonce, pt, aad, want []byte, ms, mo dstMode, pIn, pOut pos) {
 	g := ar.pick(max(len(pt), len(aad)) + s.ts + 200)
 	what := fmt.Sprintf("%v Seal(dst=%v)", s, ms)
 	// ---- Seal
-	nn, aa := in(g.nonce, nonce, hiIn), in(g.aad, aad, hiIn)
-	p := place(g.dst, c.R, ms, hiOut, len(pt)+s.ts, pt)
+	nn, aa := in(g.nonce, nonce, pIn.shift(1)), in(g.aad, aad, pIn.shift(3))
+	p := place(g.dst, c.R, ms, pOut, len(pt)+s.ts, pt)
 	src := p.input
 	if !p.mode.inPlace() {
-		src = in(g.pt, pt, hiIn)
+		src = in(g.pt, pt, pIn)
 	}
 	var ret []byte
 	if c.Call(what, func() { ret = a.Seal(p.dst, nn, src, aa) }) {
@@ -351,11 +447,11 @@ func sealOpen(c *mon.Case, ar *arena, s spec, a cipher.AEAD, nonce, pt, aad, wan
 	}
 	// ---- Open of the reference's output
 	what = fmt.Sprintf("%v Open(dst=%v)", s, mo)
-	nn, aa = in(g.nonce, nonce, hiOut), in(g.aad, aad, hiOut)
-	q := place(g.out, c.R, mo, hiIn, len(pt), want)
+	nn, aa = in(g.nonce, nonce, pOut.shift(2)), in(g.aad, aad, pOut.shift(4))
+	q := place(g.out, c.R, mo, pIn, len(pt), want)
 	ct := q.input
 	if !q.mode.inPlace() {
-		ct = in(g.ct, want, hiOut)
+		ct = in(g.ct, want, pOut)
 	}
 	var back []byte
 	var err error
@@ -377,11 +473,8 @@ func sealOpen(c *mon.Case, ar *arena, s spec, a cipher.AEAD, nonce, pt, aad, wan
 			unchanged(c, what, "ciphertext", ct, want)
 		}
 	}
-	if hiIn {
-		c.Event("inputs_end_at_guard_page", 1)
-	} else {
-		c.Event("inputs_start_at_guard_page", 1)
-	}
+	c.Event("inputs_at_"+pIn.kindName(), 1)
+	c.Event("outputs_at_"+pOut.kindName(), 1)
 }
 
 // ---------------------------------------------------------------------------
@@ -397,7 +490,16 @@ var subs = [4]func(byte) byte{
 // tamperOne opens one altered (nonce, aad, sealed) triple and demands refusal:
 // error, nil result, an all-zero output region, nothing else touched.
 func tamperOne(c *mon.Case, g *bufs, s spec, a cipher.AEAD, refAccepts func(nonce, sealed, aad []byte) bool, what string, k int, nonce, sealed, aad, pt []byte) {
-	hi := k&1 == 0
+	// placement: ciphertext||tag and the output alternately end / start at a guard page; every 7th
+	// alteration uses misaligned buffers (different offsets for input and output)
+	pc, po := atLo, atLo
+	if k&1 == 0 {
+		pc, po = atHi, atHi
+	}
+	if k%7 == 3 {
+		pc, po = mis(k/7), mis(k/7+2)
+		c.Event("tamper_opens_misaligned", 1)
+	}
 	mode := dExact
 	switch {
 	case k%11 == 10:
@@ -413,11 +515,18 @@ func tamperOne(c *mon.Case, g *bufs, s spec, a cipher.AEAD, refAccepts func(nonc
 	if region < 0 {
 		region = 0
 	}
-	nn, aa := in(g.nonce, nonce, hi), in(g.aad, aad, !hi)
-	q := place(g.out, c.R, mode, hi, region, sealed)
+	pn := atLo
+	if pc.kind == kLo {
+		pn = atHi
+	}
+	nn, aa := in(g.nonce, nonce, pc.shift(1)), in(g.aad, aad, pn)
+	if pc.misaligned() {
+		aa = in(g.aad, aad, pc.shift(3))
+	}
+	q := place(g.out, c.R, mode, po, region, sealed)
 	ct := q.input
 	if !q.mode.inPlace() {
-		ct = in(g.ct, sealed, hi)
+		ct = in(g.ct, sealed, pc)
 	}
 	var back []byte
 	var err error
